@@ -1,4 +1,7 @@
 SPECIFICATION TSpec
+CONSTANTS
+  MemFactor = 16
+  MemSlack = 64
 INVARIANT TInv
 POSTCONDITION Accepted
 CHECK_DEADLOCK FALSE
